@@ -470,7 +470,7 @@ theorem stepP_G3 {r : Fin n} {s s' : St n} (h : G3 r s) (e : Ev n) (hs : stepP r
     case search =>
       split at hs
       · rename_i hg
-        obtain ⟨hpo, hsn, hb, hsc, hqc, hqn⟩ := hg
+        obtain ⟨hpo, hsn, hb, hsc, hqc, hqn, _⟩ := hg
         cases hs
         have hsa : s.search.active = false := by simp [Reg.active, hsc, hsn]
         have hqa : s.quitF.active = false := by simp [Reg.active, hqc, hqn]
